@@ -55,14 +55,18 @@ open QV QV.Writer QV.ServerSafety
   equal to the names given up to ASCII case), `C12_refinement_without_standard_mode` (sessions that
   never use `Standard` mode: the decoded message *equals* the abstract message; for `Disabled` mode
   alone also `C12_disabled_refinement`, proved from the octets), `C12_header_all_sequences` (what
-  the header octets are). What separates these theorems from `C12_full` as a single statement: the
-  executable `checkSession` walks the reported statuses (justifying every failure), compares each
-  item with the mode in effect when it was written (that comparison is `C12_refinement_item_modes`)
-  and runs the pointer audit (that is C13, `C13_holds`), and (d) is stated for finished messages of at most 65535 octets, i.e. for sessions
-  whose limits are at most 65535 (`C12_refinement_all_modes_dns_limits`; RDLENGTH is a 16-bit
-  field, the writer itself accepts larger buffers). The driver evaluates `checkSession`
-  itself on 100 % of the generated sessions (model column and, on the implementation's octets, spec
-  column of `waudit`). -/
+  the header octets are). What separates these theorems from `C12_full` as a single statement
+  (see the end of this file): `C12_full_one_segment_modulo_audit_partial` proves `checkSession … =
+  "ok"` on what `Driver.runModel` observes, for sessions without `clear_rrs`, from one premise — the
+  pointer audit `auditPointers` of the decoded message (C13 proves the audit's conditions on the
+  writer's pointer log; that the pointers the decoder finds are exactly the logged ones is not
+  proved). Everything else `checkSession` does is discharged: the walk over the status strings with
+  `absOk` and `justified` (`C12_failures_justified`), the getters, header, questions and records by
+  item mode, OPT, TSIG, size. Open: the audit premise, and sessions with `clear_rrs` (the walk then
+  checks each segment against the message finished before the call). (d) is stated for limits of at
+  most 65535 (RDLENGTH is a 16-bit field; the writer itself accepts larger buffers). The driver
+  evaluates `checkSession` itself on 100 % of the generated sessions (model column and, on the
+  implementation's octets, spec column of `waudit`). -/
 
 /- The statement as first written (kept for the record):
 
@@ -681,14 +685,15 @@ theorem C12_segment_reduces_to_pointer_audit_partial (macFn : Tsig → List UInt
   vocabulary). Everything else `checkSession` checks is proved: no call panics, `finish` succeeds,
   the message decodes, the walk accepts every call (`absOk` for successes, `justified` for
   failures, the getters report what the specification expects), header, questions and records compared in the mode of each item, the OPT and the TSIG
-  record, the size limit. (`hml`: the MAC has exactly the size the specification expects.) -/
+  record, the size limit. (`hsz`: for a signing TSIG mode the MAC given has the algorithm's output
+  size — `MacLenOK` alone only bounds it.) -/
 theorem C12_full_one_segment_modulo_audit_partial (buf : Bytes) (limit : Nat) (mode : CMode) (s : State)
     (ops : List Op) (mac : Option (List UInt8)) (hnew : Writer.new buf limit = .ok s)
     (hr : Respects { w := { s with mode := mode } } ops) (ht : ∀ op ∈ ops, ApiTyped op) (hlim : limit ≤ 65535)
     (hv : ∀ v, Op.setLimit v ∈ ops → v ≤ 65535) (hmac : MacLenOK (fun _ _ => mac.getD []))
     (hno : ∀ op ∈ ops, op ≠ .clearRrs)
-    (hml : ∀ m mc ts, finish (run { w := { s with mode := mode } } ops).1.w (fun _ _ => mac.getD []) = .ok (m, mc) →
-      (run { w := { s with mode := mode } } ops).1.w.tsig = some ts → (mc.getD []).length = (toATsig ts).macLen) :
+    (hsz : ∀ ts, (run { w := { s with mode := mode } } ops).1.w.tsig = some ts → isUnsigned ts.mode = false →
+      (mac.getD []).length = (toATsig ts).macLen) :
     ∃ (m : Bytes) (d : Spec.Message.Decoded) (aF : Spec.Message.AState),
       (Driver.runModel { w := { s with mode := mode } } ops mac true).msg = some m ∧
       Spec.Message.specDecodeMsg m = some d ∧
@@ -697,7 +702,7 @@ theorem C12_full_one_segment_modulo_audit_partial (buf : Bytes) (limit : Nat) (m
           (Driver.runModel { w := { s with mode := mode } } ops mac true).statuses
           ((Driver.runModel { w := { s with mode := mode } } ops mac true).pre ++ [m])
           (Driver.runModel { w := { s with mode := mode } } ops mac true).mac = "ok") :=
-  checkSession_one_segment buf limit mode s ops mac hnew hr ht hlim hv hmac hno hml
+  checkSession_one_segment buf limit mode s ops mac hnew hr ht hlim hv hmac hno hsz
 
 /-! non-vacuity: a `CasePreserving` session that respects the contract, whose calls all succeed, and
     that emits two pointers (owner = QNAME; the CNAME target shares a suffix with it) — all
